@@ -5,7 +5,9 @@
            predicates; refutations for the clauses the code violates. *)
 From Coq Require Import QArith ZArith String Ascii List Bool Arith Lia.
 From Allfed Require Import Base.StrUtil Gen.UnitTables Model.Units Model.FoodOps.
+From Allfed Require Proofs.Units.
 Import ListNotations.
+Open Scope nat_scope.
 Open Scope string_scope.
 
 Inductive tok := Each | Per.
@@ -164,3 +166,635 @@ Proof.
 Qed.
 Lemma A5 b s : clean b = true -> replace_all " each month" " per month" (render b s) = render b (map to_per s).
 Proof. intros Hc. unfold replace_all. apply replace_b; [exact Hc|lia]. Qed.
+
+(* ================================================================== Part 2 *)
+Open Scope Q_scope.
+Open Scope string_scope.
+
+Lemma existsb_no_each s : ~ In Each s -> existsb is_each s = false.
+Proof.
+  induction s as [|[|] s IH]; simpl; intros H; [reflexivity| |].
+  - exfalso; apply H; now left.
+  - apply IH; intro; apply H; now right.
+Qed.
+Lemma existsb_each_end pre : existsb is_each (pre ++ [Each]) = true.
+Proof. rewrite existsb_app. simpl. now rewrite orb_true_r. Qed.
+Lemma before_each_end pre : ~ In Each pre -> before_each (pre ++ [Each]) = pre.
+Proof.
+  induction pre as [|[|] s IH]; simpl; intros H; [reflexivity| |].
+  - exfalso; apply H; now left.
+  - f_equal; apply IH; intro; apply H; now right.
+Qed.
+Lemma to_per_no_each s : ~ In Each (map to_per s).
+Proof. induction s; simpl; [tauto|]. intros [H|H]; [discriminate|auto]. Qed.
+
+(* a label of a monthly series: clean base, exactly one " each month", at the end *)
+Definition lab_mon (l : string) : Prop :=
+  exists b pre, clean b = true /\ ~ In Each pre /\ l = render b (pre ++ [Each]).
+(* a label of a single value: clean base, any number of " per month", no " each month" *)
+Definition lab_sc (l : string) : Prop :=
+  exists b s, clean b = true /\ ~ In Each s /\ l = render b s.
+Definition lab_wf (m : bool) (l : string) : Prop := if m then lab_mon l else lab_sc l.
+Definition lab_any (l : string) : Prop := lab_mon l \/ lab_sc l.
+
+Definition vals_ok (v : vals) : Prop :=
+  match v with
+  | Scalar _ _ _ => True
+  | Monthly k f p => List.length k = List.length f /\ List.length f = List.length p /\ List.length k <> 0%nat
+  end.
+
+Record WF (x : food) : Prop := {
+  wf_units : units x = [ku x; fu x; pu x];
+  wf_vals : vals_ok (fv x);
+  wf_k : lab_wf (mon x) (ku x);
+  wf_f : lab_wf (mon x) (fu x);
+  wf_p : lab_wf (mon x) (pu x) }.
+
+Lemma lab_mon_has0 l : lab_mon l -> contains EACH_NOSPACE l = true.
+Proof. intros (b & pre & Hc & _ & ->). unfold EACH_NOSPACE. rewrite A1 by exact Hc. apply existsb_each_end. Qed.
+Lemma lab_mon_has l : lab_mon l -> contains EACH l = true.
+Proof. intros (b & pre & Hc & _ & ->). unfold EACH. rewrite A2 by exact Hc. apply existsb_each_end. Qed.
+Lemma lab_sc_has0 l : lab_sc l -> contains EACH_NOSPACE l = false.
+Proof. intros (b & s & Hc & Hn & ->). unfold EACH_NOSPACE. rewrite A1 by exact Hc. now apply existsb_no_each. Qed.
+Lemma lab_sc_has l : lab_sc l -> contains EACH l = false.
+Proof. intros (b & s & Hc & Hn & ->). unfold EACH. rewrite A2 by exact Hc. now apply existsb_no_each. Qed.
+Lemma lab_sc_app_each l : lab_sc l -> lab_mon (l ++ EACH).
+Proof. intros (b & s & Hc & Hn & ->). exists b, s. repeat split; auto. unfold EACH. apply A6. Qed.
+Lemma lab_mon_split l : lab_mon l -> lab_sc (split_first EACH l).
+Proof.
+  intros (b & pre & Hc & Hn & ->). exists b, pre. repeat split; auto.
+  unfold EACH. rewrite A4 by exact Hc. now rewrite before_each_end.
+Qed.
+Lemma lab_mon_replace l : lab_mon l -> lab_sc (replace_all EACH PER l).
+Proof.
+  intros (b & pre & Hc & Hn & ->). exists b, (map to_per (pre ++ [Each])). repeat split; auto.
+  - apply to_per_no_each.
+  - unfold EACH, PER. now apply A5.
+Qed.
+Lemma lab_mon_not_sc l : lab_mon l -> lab_sc l -> False.
+Proof. intros H1 H2. apply lab_mon_has0 in H1. apply lab_sc_has0 in H2. congruence. Qed.
+
+Lemma ctor_label_any l : lab_any l -> lab_mon (ctor_label true l).
+Proof.
+  unfold ctor_label. intros [H|H]; simpl.
+  - change "each month" with EACH_NOSPACE. rewrite (lab_mon_has0 l H). exact H.
+  - change "each month" with EACH_NOSPACE. rewrite (lab_sc_has0 l H). simpl. now apply lab_sc_app_each.
+Qed.
+Lemma ctor_label_mon l : lab_mon l -> ctor_label true l = l.
+Proof. intros H. unfold ctor_label. change "each month" with EACH_NOSPACE. now rewrite (lab_mon_has0 l H). Qed.
+
+Lemma clean_lab_sc b : clean b = true -> lab_sc b.
+Proof. intros H. exists b, []. repeat split; auto. unfold render; simpl. now rewrite app_nil_r_s. Qed.
+Lemma clean_lab_sc_per b : clean b = true -> lab_sc (b ++ PER).
+Proof. intros H. exists b, [Per]. repeat split; auto. simpl; intros [E|[]]; discriminate. Qed.
+Lemma clean_lab_mon b : clean b = true -> lab_mon (b ++ EACH).
+Proof. intros H. exists b, []. repeat split; auto. Qed.
+
+(* ------------------------------------------------------------------ shapes *)
+Lemma vals_zip_shape g a b v : vals_zip g a b = Ok v -> is_monthly v = is_monthly a || is_monthly b.
+Proof.
+  destruct a, b; simpl; intros H; try (inversion H; reflexivity).
+  destruct (bc g k k0), (bc g f f0), (bc g p p0); inversion H; reflexivity.
+Qed.
+Lemma vals_map_shape g a : is_monthly (vals_map g a) = is_monthly a.
+Proof. destruct a; reflexivity. Qed.
+
+Lemma validate_ok x : validate x = Ok tt -> vals_ok (fv x).
+Proof.
+  unfold validate, vals_ok. destruct (fv x); [trivial|]. unfold guard.
+  destruct (contains EACH (ku x) && contains EACH (fu x) && contains EACH (pu x)); [|discriminate].
+  destruct (Nat.eqb (List.length k) (List.length f)) eqn:E1; [|discriminate].
+  destruct (Nat.eqb (List.length f) (List.length p)) eqn:E2; [|discriminate]. simpl.
+  destruct (Nat.eqb (List.length k) 0) eqn:E3; [discriminate|]. intros _.
+  apply Nat.eqb_eq in E1. apply Nat.eqb_eq in E2. apply Nat.eqb_neq in E3. auto.
+Qed.
+
+(* every operation builds its result through ctor_arr: the result is well formed as soon as the labels handed
+   to the constructor fit the shape of the numbers *)
+Lemma ctor_arr_wf v k f p y : ctor_arr v k f p = Ok y ->
+  (is_monthly v = true -> lab_any k /\ lab_any f /\ lab_any p) ->
+  (is_monthly v = false -> lab_sc k /\ lab_sc f /\ lab_sc p) -> WF y.
+Proof.
+  unfold ctor_arr, bind. destruct (validate (mk_food v k f p)) as [[]|] eqn:V; [|discriminate].
+  intros H; inversion H; subst y; clear H. intros Hm Hs.
+  pose proof (validate_ok _ V) as Hv.
+  constructor; try reflexivity; try exact Hv; unfold mon; simpl fv; simpl ku; simpl fu; simpl pu;
+  destruct (is_monthly v) eqn:M; simpl;
+  try (destruct (Hm eq_refl) as (A & B & C)); try (destruct (Hs eq_refl) as (A & B & C));
+  try (apply ctor_label_any; assumption); unfold ctor_label; simpl; assumption.
+Qed.
+
+Lemma ctor_arr_labels_scalar v k f p y : ctor_arr v k f p = Ok y -> is_monthly v = false ->
+  ku y = k /\ fu y = f /\ pu y = p /\ units y = [k; f; p] /\ fv y = v.
+Proof.
+  unfold ctor_arr, bind. destruct (validate _) as [[]|]; [|discriminate]. intros H; inversion H; subst y.
+  intros M. unfold mk_food, ctor_label. rewrite M. simpl. auto.
+Qed.
+Lemma ctor_arr_labels_mon v k f p y : ctor_arr v k f p = Ok y -> lab_mon k -> lab_mon f -> lab_mon p ->
+  ku y = k /\ fu y = f /\ pu y = p /\ fv y = v.
+Proof.
+  unfold ctor_arr, bind. destruct (validate _) as [[]|]; [|discriminate]. intros H; inversion H; subst y.
+  intros A B C. unfold mk_food. simpl. destruct (is_monthly v).
+  - now rewrite !ctor_label_mon.
+  - unfold ctor_label; simpl; auto.
+Qed.
+
+Lemma wf_any x : WF x -> lab_any (ku x) /\ lab_any (fu x) /\ lab_any (pu x).
+Proof. intros [_ _ A B C]. unfold lab_wf, lab_any in *. destruct (mon x); auto. Qed.
+Lemma wf_sc x : WF x -> mon x = false -> lab_sc (ku x) /\ lab_sc (fu x) /\ lab_sc (pu x).
+Proof. intros [_ _ A B C] M. rewrite M in *. auto. Qed.
+Lemma wf_mon x : WF x -> mon x = true -> lab_mon (ku x) /\ lab_mon (fu x) /\ lab_mon (pu x).
+Proof. intros [_ _ A B C] M. rewrite M in *. auto. Qed.
+
+Lemma with_labels_wf x v y : with_labels_of x v = Ok y -> WF x -> (is_monthly v = false -> mon x = false) -> WF y.
+Proof.
+  unfold with_labels_of. intros H W S. eapply ctor_arr_wf; [exact H| |].
+  - intros _. now apply wf_any.
+  - intros M. apply wf_sc; auto.
+Qed.
+
+(* the labels of the result are those of x when the shapes agree *)
+Lemma with_labels_same x v y : with_labels_of x v = Ok y -> WF x -> is_monthly v = mon x ->
+  ku y = ku x /\ fu y = fu x /\ pu y = pu x /\ fv y = v.
+Proof.
+  unfold with_labels_of. intros H W S. destruct (mon x) eqn:M.
+  - destruct (wf_mon x W M) as (A & B & C). now apply ctor_arr_labels_mon.
+  - destruct (ctor_arr_labels_scalar _ _ _ _ _ H S) as (A & B & C & _ & D). auto.
+Qed.
+
+Ltac inv_guard H :=
+  unfold guard, bind in H;
+  repeat match type of H with
+         | (if ?b then _ else _) = _ => let E := fresh "G" in destruct b eqn:E; [|discriminate H]
+         | (match ?e with Ok _ => _ | Rejected _ => _ end) = _ =>
+             let E := fresh "B" in destruct e eqn:E; [|discriminate H]
+         end.
+
+(* ------------------------------------------------------------------ WF is preserved: one lemma per group *)
+Lemma zip_labels_x_wf g x y z : WF x ->
+  bind (vals_zip g (fv x) (fv y)) (with_labels_of x) = Ok z -> WF z.
+Proof.
+  intros W H. inv_guard H. eapply with_labels_wf; eauto.
+  intros M. apply vals_zip_shape in B. rewrite B in M. unfold mon. now apply orb_false_elim in M.
+Qed.
+
+Lemma add_wf x y z : WF x -> add x y = Ok z -> WF z.
+Proof. unfold add. intros W H. inv_guard H. eapply zip_labels_x_wf; eauto. unfold bind. now rewrite B. Qed.
+Lemma sub_wf x y z : WF x -> sub x y = Ok z -> WF z.
+Proof. unfold sub. intros W H. inv_guard H. eapply zip_labels_x_wf; eauto. unfold bind. now rewrite B. Qed.
+Lemma min_wf x y z : WF x -> min_elementwise x y = Ok z -> WF z.
+Proof. unfold min_elementwise. intros W H. inv_guard H. eapply zip_labels_x_wf; eauto. unfold bind. now rewrite B. Qed.
+
+Lemma map_wf g x z : WF x -> with_labels_of x (vals_map g (fv x)) = Ok z -> WF z.
+Proof. intros W H. eapply with_labels_wf; eauto. now rewrite vals_map_shape. Qed.
+
+Lemma mul_food_wf x y z : WF x -> WF y -> mul x (MFood y) = Ok z -> WF z.
+Proof.
+  unfold mul. intros Wx Wy H.
+  destruct (mon x) eqn:Mx; simpl negb in H; cbv iota in H.
+  - inv_guard H. destruct (mon y) eqn:My.
+    + inv_guard H. destruct (is_a_ratio y); (eapply with_labels_wf; [exact H| assumption |]);
+      intros M; apply vals_zip_shape in B1; rewrite B1 in M; fold (mon x) in M; rewrite Mx in M; discriminate.
+    + inv_guard H. eapply with_labels_wf; [exact H|assumption|].
+      intros M; apply vals_zip_shape in B0; rewrite B0 in M; fold (mon x) in M; rewrite Mx in M; discriminate.
+  - destruct (mon y) eqn:My.
+    + inv_guard H. eapply with_labels_wf; [exact H|assumption|].
+      intros M; apply vals_zip_shape in B; rewrite B in M; fold (mon y) in M; rewrite My, orb_true_r in M; discriminate.
+    + inv_guard H. destruct (is_a_ratio y); (eapply with_labels_wf; [exact H|assumption|]); intros _; assumption.
+Qed.
+
+Lemma vals_arr_mon g a l v : vals_arr g a l = Ok v -> is_monthly v = true.
+Proof. unfold vals_arr. intros H. apply vals_zip_shape in H. rewrite H. simpl. apply orb_true_r. Qed.
+
+Lemma mul_wf x a z : WF x -> match a with MFood y => WF y | _ => True end -> mul x a = Ok z -> WF z.
+Proof.
+  intros W Wa H. destruct a as [y|q|l].
+  - exact (mul_food_wf x y z W Wa H).
+  - unfold mul in H. destruct (mon x) eqn:Mx; simpl negb in H; cbv iota in H.
+    + inv_guard H. eapply map_wf; eauto.
+    + eapply map_wf; eauto.
+  - unfold mul in H. destruct (mon x) eqn:Mx; simpl negb in H; cbv iota in H.
+    + inv_guard H. eapply with_labels_wf; eauto. intros M. apply vals_arr_mon in B0. congruence.
+    + inv_guard H. pose proof (vals_arr_mon _ _ _ _ B) as Mv.
+      destruct (wf_sc x W Mx) as (A1' & A2' & A3').
+      eapply ctor_arr_wf; [exact H| |intros M; congruence].
+      intros _. repeat split; left; now apply lab_sc_app_each.
+Qed.
+
+Lemma ratio_mon : lab_mon "ratio each month".
+Proof. exists "ratio", []. repeat split; auto. Qed.
+Lemma ratio_sc : lab_sc "ratio".
+Proof. apply clean_lab_sc. reflexivity. Qed.
+
+Lemma div_food_wf x y z : div_food x y = Ok z -> WF z.
+Proof.
+  unfold div_food. intros H. inv_guard H. destruct (mon x) eqn:Mx.
+  - inv_guard H. apply vals_zip_shape in B1. fold (mon x) in B1. rewrite Mx in B1. simpl in B1.
+    eapply ctor_arr_wf; [exact H| |intros M; congruence].
+    intros _. repeat split; left; exact ratio_mon.
+  - inv_guard H. apply vals_zip_shape in B. fold (mon x) (mon y) in B. rewrite Mx in B.
+    apply negb_true_iff in G0. rewrite G0 in B. simpl in B.
+    eapply ctor_arr_wf; [exact H|intros M; congruence|]. intros _. repeat split; exact ratio_sc.
+Qed.
+
+Lemma sure_list_mon x u : sure_list x = Ok u -> mon x = true.
+Proof. unfold sure_list, guard. destruct (mon x); [auto|discriminate]. Qed.
+
+Lemma slice_wf x a b z : WF x -> getitem_slice x a b = Ok z -> WF z.
+Proof.
+  unfold getitem_slice. intros W H. inv_guard H. apply sure_list_mon in B.
+  destruct (fv x) eqn:V; [discriminate|]. eapply with_labels_wf; eauto; simpl; discriminate.
+Qed.
+
+Lemma set_l2e_wf x0 z : units x0 = [ku x0; fu x0; pu x0] ->
+  lab_mon (ku x0) -> lab_mon (fu x0) -> lab_mon (pu x0) -> mon x0 = false -> set_l2e x0 = Ok z -> WF z.
+Proof.
+  intros U A B C M H. unfold set_l2e, set_from, get_l2e in H. inv_guard H. destruct (has_each3 x0); [|discriminate B0]. inversion B0; subst a; clear B0.
+  inversion H; subst z; clear H. unfold set_units.
+  constructor; simpl; try reflexivity; unfold mon in *; simpl.
+  - destruct (fv x0); simpl in *; [trivial|discriminate].
+  - rewrite M. simpl. now apply lab_mon_replace.
+  - rewrite M. simpl. now apply lab_mon_replace.
+  - rewrite M. simpl. now apply lab_mon_replace.
+Qed.
+Lemma set_l2t_wf x0 z : units x0 = [ku x0; fu x0; pu x0] ->
+  lab_mon (ku x0) -> lab_mon (fu x0) -> lab_mon (pu x0) -> mon x0 = false -> set_l2t x0 = Ok z -> WF z.
+Proof.
+  intros U A B C M H. unfold set_l2t, set_from, get_l2t in H. inv_guard H. destruct (has_each3 x0); [|discriminate B0]. inversion B0; subst a; clear B0.
+  inversion H; subst z; clear H. unfold set_units.
+  constructor; simpl; try reflexivity; unfold mon in *; simpl.
+  - destruct (fv x0); simpl in *; [trivial|discriminate].
+  - rewrite M. simpl. now apply lab_mon_split.
+  - rewrite M. simpl. now apply lab_mon_split.
+  - rewrite M. simpl. now apply lab_mon_split.
+Qed.
+
+Lemma pick3_scalar k f p i v : pick3 k f p i = Ok v -> is_monthly v = false.
+Proof. unfold pick3. destruct (py_index k i), (py_index f i), (py_index p i); intros H; inversion H; reflexivity. Qed.
+
+(* a scalar built with the labels of a monthly WF food, then relabelled *)
+Lemma scalar_then x v y0 : WF x -> mon x = true -> is_monthly v = false -> with_labels_of x v = Ok y0 ->
+  units y0 = [ku y0; fu y0; pu y0] /\ lab_mon (ku y0) /\ lab_mon (fu y0) /\ lab_mon (pu y0) /\ mon y0 = false.
+Proof.
+  intros W M S H. unfold with_labels_of in H.
+  destruct (ctor_arr_labels_scalar _ _ _ _ _ H S) as (A & B & C & U & V).
+  destruct (wf_mon x W M) as (A' & B' & C'). unfold mon. rewrite A, B, C, U, V. auto.
+Qed.
+
+Lemma month_wf x i z : WF x -> get_month x i = Ok z -> WF z.
+Proof.
+  unfold get_month. intros W H. inv_guard H. apply sure_list_mon in B.
+  destruct (fv x) eqn:V; [discriminate|]. inv_guard H.
+  match goal with P : pick3 _ _ _ _ = Ok ?v, L : with_labels_of x ?v = Ok ?y0 |- _ =>
+    pose proof (pick3_scalar _ _ _ _ _ P) as S;
+    destruct (scalar_then x v y0 W B S L) as (U & A1' & A2' & A3' & M) end.
+  eapply set_l2e_wf; eauto.
+Qed.
+
+Lemma sum_wf x z : WF x -> get_nutrients_sum x = Ok z -> WF z.
+Proof.
+  unfold get_nutrients_sum. intros W H. inv_guard H. apply sure_list_mon in B.
+  destruct (fv x) eqn:V; [discriminate|]. inv_guard H.
+  match goal with L : with_labels_of x ?v = Ok ?y0 |- _ =>
+    destruct (scalar_then x v y0 W B eq_refl L) as (U & A1' & A2' & A3' & M) end.
+  eapply set_l2t_wf; eauto.
+Qed.
+
+Lemma reduce_wf g x z : WF x -> reduce_months g x = Ok z -> WF z.
+Proof.
+  unfold reduce_months. intros W H. inv_guard H. apply sure_list_mon in B.
+  destruct (fv x) eqn:V; [discriminate|]. destruct k; [discriminate|]. destruct f; [discriminate|].
+  destruct p; [discriminate|]. inv_guard H.
+  match goal with L : with_labels_of x ?v = Ok ?y0 |- _ =>
+    destruct (scalar_then x v y0 W B eq_refl L) as (U & A1' & A2' & A3' & M) end.
+  eapply set_l2t_wf; eauto.
+Qed.
+
+Lemma runsum_wf x z : WF x -> get_running_total x = Ok z -> WF z.
+Proof.
+  unfold get_running_total. intros W H. inv_guard H. destruct (fv x) eqn:V; [discriminate|].
+  eapply with_labels_wf; eauto; simpl; discriminate.
+Qed.
+
+Lemma round_wf x d z : WF x -> get_rounded x d = Ok z -> WF z.
+Proof. unfold get_rounded. intros W H. inv_guard H. eapply map_wf; eauto. Qed.
+
+Lemma clip_wf x z : WF x -> negative_values_to_zero x = Ok z -> WF z.
+Proof.
+  unfold negative_values_to_zero. intros W H. destruct (mon x).
+  - inv_guard H. eapply map_wf; eauto.
+  - eapply map_wf; eauto.
+Qed.
+
+Lemma shift_wf x n z : WF x -> shift x n = Ok z -> WF z.
+Proof.
+  unfold shift. intros W H. destruct (fv x) eqn:V; [discriminate|].
+  eapply with_labels_wf; eauto; simpl; discriminate.
+Qed.
+
+(* conversions *)
+Lemma vals_scale_ok a b d v : vals_ok v -> vals_ok (vals_scale a b d v).
+Proof. destruct v; simpl; [auto|]. now rewrite !map_length. Qed.
+Lemma vals_scale_mon a b d v : is_monthly (vals_scale a b d v) = is_monthly v.
+Proof. destruct v; reflexivity. Qed.
+
+Lemma in_units_wf c x tk tf tp z : WF x -> clean tk = true -> clean tf = true -> clean tp = true ->
+  in_units c x tk tf tp = Ok z -> WF z.
+Proof.
+  intros W Ck Cf Cp H. unfold in_units in H.
+  rewrite (wf_units x W) in H. simpl nth in H.
+  unfold in_units_branches, pick_branch, in_units_else in H.
+  assert (E : forall nw, (mon x = true -> nw = EACH) -> (mon x = false -> nw = PER \/ nw = "") ->
+              WF (mk_food (vals_scale 1 1 1 (fv x)) (tk ++ nw) (tf ++ nw) (tp ++ nw)) ->
+              forall a b d, WF (mk_food (vals_scale a b d (fv x)) (tk ++ nw) (tf ++ nw) (tp ++ nw))).
+  { intros nw _ _ [U V A B C] a b d. constructor; simpl in *; auto.
+    - apply vals_scale_ok. destruct (fv x); simpl in *; auto. now rewrite !map_length in V.
+    - unfold mon in *; simpl in *. now rewrite vals_scale_mon in *.
+    - unfold mon in *; simpl in *. now rewrite vals_scale_mon in *.
+    - unfold mon in *; simpl in *. now rewrite vals_scale_mon in *. }
+  assert (F : forall nw, (mon x = true -> nw = EACH) -> (mon x = false -> nw = PER \/ nw = "") ->
+              forall a b d, WF (mk_food (vals_scale a b d (fv x)) (tk ++ nw) (tf ++ nw) (tp ++ nw))).
+  { intros nw Hm Hs a b d. constructor; simpl; try reflexivity.
+    - apply vals_scale_ok. exact (wf_vals x W).
+    - unfold mon; simpl. rewrite vals_scale_mon. fold (mon x). destruct (mon x) eqn:M; simpl.
+      + rewrite (Hm eq_refl). apply ctor_label_any. left. now apply clean_lab_mon.
+      + unfold ctor_label; simpl. destruct (Hs eq_refl) as [->| ->];
+        [now apply clean_lab_sc_per|rewrite app_nil_r_s; now apply clean_lab_sc].
+    - unfold mon; simpl. rewrite vals_scale_mon. fold (mon x). destruct (mon x) eqn:M; simpl.
+      + rewrite (Hm eq_refl). apply ctor_label_any. left. now apply clean_lab_mon.
+      + unfold ctor_label; simpl. destruct (Hs eq_refl) as [->| ->];
+        [now apply clean_lab_sc_per|rewrite app_nil_r_s; now apply clean_lab_sc].
+    - unfold mon; simpl. rewrite vals_scale_mon. fold (mon x). destruct (mon x) eqn:M; simpl.
+      + rewrite (Hm eq_refl). apply ctor_label_any. left. now apply clean_lab_mon.
+      + unfold ctor_label; simpl. destruct (Hs eq_refl) as [->| ->];
+        [now apply clean_lab_sc_per|rewrite app_nil_r_s; now apply clean_lab_sc]. }
+  clear E.
+  change " each month" with EACH in H. change " per month" with PER in H.
+  destruct (mon x) eqn:M.
+  - destruct (wf_mon x W M) as (A & _ & _). rewrite (lab_mon_has _ A) in H.
+    destruct (conversion (kcal_mult c) _ _); [|discriminate].
+    destruct (conversion (fat_mult c) _ _); [|discriminate].
+    destruct (conversion (protein_mult c) _ _); [|discriminate].
+    inversion H; subst z. apply F; [auto|discriminate].
+  - destruct (wf_sc x W M) as (A & _ & _). rewrite (lab_sc_has _ A) in H.
+    destruct (contains PER (ku x)).
+    + destruct (conversion (kcal_mult c) _ _); [|discriminate].
+      destruct (conversion (fat_mult c) _ _); [|discriminate].
+      destruct (conversion (protein_mult c) _ _); [|discriminate].
+      inversion H; subst z. apply F; [discriminate|auto].
+    + destruct (conversion (kcal_mult c) _ _); [|discriminate].
+      destruct (conversion (fat_mult c) _ _); [|discriminate].
+      destruct (conversion (protein_mult c) _ _); [|discriminate].
+      inversion H; subst z. apply F; [discriminate|auto].
+Qed.
+
+Definition targets_clean (t : string * (string * string * string)) : bool :=
+  let '(_, (a, b, d)) := t in clean a && clean b && clean d.
+Lemma helper_targets_clean : forallb targets_clean helper_targets = true.
+Proof. vm_compute. reflexivity. Qed.
+
+Lemma helper_wf c name x z : WF x -> helper c name x = Ok z -> WF z.
+Proof.
+  unfold helper. intros W H. destruct (lookup name helper_targets) as [[[a b] d]|] eqn:L; [|discriminate].
+  apply lookup_In in L. pose proof helper_targets_clean as HC. rewrite forallb_forall in HC.
+  specialize (HC _ L). unfold targets_clean in HC. apply andb_prop in HC as [HC C3]. apply andb_prop in HC as [C1 C2].
+  exact (in_units_wf c x a b d z W C1 C2 C3 H).
+Qed.
+
+(* ------------------------------------------------------------------ closure *)
+Definition op_closed (o : op) : Prop :=
+  match o with
+  | OIndex _ => False                                  (* refuted below *)
+  | OSetUnits _ _ _ | OSetL2T | OSetL2E | OSetE2L => False   (* declared label mutators *)
+  | OMul (MFood y) | ORMul y | OMinElemR y => WF y
+  | OInUnits tk tf tp => clean tk = true /\ clean tf = true /\ clean tp = true
+  | _ => True
+  end.
+
+Lemma run_op_wf c x o z : WF x -> op_closed o -> run_op c x o = Ok z -> WF z.
+Proof.
+  intros W Hc H. destruct o; cbn [run_op] in H; cbn [op_closed] in Hc; try contradiction;
+  unfold get_first_month, get_min_all_months, get_max_all_months, abs_values, neg, div_num in H.
+  - eapply add_wf; eauto.
+  - eapply sub_wf; eauto.
+  - eapply map_wf; eauto.
+  - eapply map_wf; eauto.
+  - eapply mul_wf; eauto; destruct a; auto.
+  - exact (mul_food_wf y x z Hc W H).
+  - eapply div_food_wf; eauto.
+  - eapply map_wf; eauto.
+  - eapply slice_wf; eauto.
+  - eapply month_wf; eauto.
+  - eapply month_wf; eauto.
+  - eapply sum_wf; eauto.
+  - eapply runsum_wf; eauto.
+  - eapply reduce_wf; eauto.
+  - eapply reduce_wf; eauto.
+  - eapply min_wf; eauto.
+  - eapply min_wf; eauto.
+  - eapply round_wf; eauto.
+  - eapply clip_wf; eauto.
+  - eapply shift_wf; eauto.
+  - destruct Hc as (A & B & C). exact (in_units_wf c x tk tf tp z W A B C H).
+  - eapply helper_wf; eauto.
+Qed.
+
+Lemma run_ops_wf c os : forall x z, WF x -> Forall op_closed os -> run_ops c x os = Ok z -> WF z.
+Proof.
+  induction os as [|o os IH]; intros x z W F H; simpl in H.
+  - inversion H; subst; exact W.
+  - inversion F; subst. unfold bind in H. destruct (run_op c x o) eqn:R; [|discriminate].
+    apply (IH a z); [eapply run_op_wf; eauto|assumption|assumption].
+Qed.
+
+(* ------------------------------------------------------------------ the combined list agrees with the labels *)
+Definition units_agree (z : food) : Prop := units z = [ku z; fu z; pu z].
+
+Lemma ctor_arr_units v k f p y : ctor_arr v k f p = Ok y -> units_agree y.
+Proof. unfold ctor_arr, bind. destruct (validate _); [|discriminate]. intros H; inversion H; reflexivity. Qed.
+Lemma with_labels_units x v y : with_labels_of x v = Ok y -> units_agree y.
+Proof. apply ctor_arr_units. Qed.
+Lemma set_from_units x g y : set_from x g = Ok y -> units_agree y.
+Proof.
+  unfold set_from, bind. destruct (g x) as [l|]; [|discriminate].
+  destruct l as [|a [|b [|d [|]]]]; try discriminate. intros H; inversion H; reflexivity.
+Qed.
+Lemma in_units_units c x tk tf tp y : in_units c x tk tf tp = Ok y -> units_agree y.
+Proof. intros H. exact (proj2 (proj2 (Allfed.Proofs.Units.in_units_shape c x tk tf tp y H))). Qed.
+Lemma helper_units c n x y : helper c n x = Ok y -> units_agree y.
+Proof. unfold helper. destruct (lookup n helper_targets) as [[[a b] d]|]; [apply in_units_units|discriminate]. Qed.
+
+Ltac units_tac H :=
+  first
+  [ exact (ctor_arr_units _ _ _ _ _ H)
+  | exact (with_labels_units _ _ _ H)
+  | exact (set_from_units _ _ _ H)
+  | exact (in_units_units _ _ _ _ _ _ H)
+  | exact (helper_units _ _ _ _ H)
+  | discriminate H
+  | match type of H with
+    | (if ?b then _ else _) = _ => destruct b; units_tac H
+    | (match ?e with _ => _ end) = _ => destruct e; units_tac H
+    end ].
+
+Lemma run_op_units c x o z : run_op c x o = Ok z -> units_agree z.
+Proof.
+  intros H. destruct o; cbn [run_op] in H;
+  unfold add, sub, neg, abs_values, mul, div_food, div_num, getitem_int, getitem_slice, get_month, get_first_month,
+    get_month, get_nutrients_sum, get_running_total, get_min_all_months, get_max_all_months, reduce_months,
+    min_elementwise, get_rounded, negative_values_to_zero, shift, set_l2t, set_l2e, set_e2l, bind, guard in H;
+  try (units_tac H).
+  inversion H; reflexivity.
+Qed.
+
+(* ------------------------------------------------------------------ refusal on differing units *)
+Lemma refuse_add x y : same_units x y = false -> add x y = Rejected AssertRejected.
+Proof. unfold add, guard. now intros ->. Qed.
+Lemma refuse_sub x y : same_units x y = false -> sub x y = Rejected AssertRejected.
+Proof. unfold sub, guard. now intros ->. Qed.
+Lemma refuse_div x y : same_units x y = false -> div_food x y = Rejected AssertRejected.
+Proof. unfold div_food, guard. now intros ->. Qed.
+Lemma refuse_min x y : same_units x y = false -> min_elementwise x y = Rejected AssertRejected.
+Proof. unfold min_elementwise, guard. now intros ->. Qed.
+Lemma refuse_mul x y : is_a_ratio x = false -> is_a_ratio y = false -> exists r, mul x (MFood y) = Rejected r.
+Proof.
+  intros Rx Ry. unfold mul, guard, bind. rewrite Rx, Ry. simpl.
+  destruct (mon x); simpl.
+  - destruct (validate x); [|eauto]. destruct (mon y); [|eauto]. destruct (validate y); eauto.
+  - destruct (mon y); eauto.
+Qed.
+Definition pred_checks_units (p : pred) : bool :=
+  match p with PEq | PNe | PAllGt | PAllLt | PAnyGt | PAnyLt | PAllGe | PAnyGe => true | _ => false end.
+Lemma refuse_pred incf incp p x y : pred_checks_units p = true -> same_units x y = false ->
+  eval_pred incf incp p x y = Rejected AssertRejected.
+Proof. destruct p; simpl; try discriminate; intros _ E; unfold guard; rewrite E; reflexivity. Qed.
+
+(* ------------------------------------------------------------------ ratio on either side *)
+Lemma strs_eq_refl l : strs_eq l l = true.
+Proof. induction l; simpl; [reflexivity|]. now rewrite String.eqb_refl. Qed.
+
+Lemma mul_ratio_labels r q z : WF r -> WF q -> is_a_ratio r = true -> is_a_ratio q = false ->
+  (mul r (MFood q) = Ok z \/ mul q (MFood r) = Ok z) ->
+  ku z = ku q /\ fu z = fu q /\ pu z = pu q /\ units z = units q.
+Proof.
+  intros Wr Wq Rr Rq H.
+  assert (G : forall v, is_monthly v = mon q -> with_labels_of q v = Ok z ->
+              ku z = ku q /\ fu z = fu q /\ pu z = pu q /\ units z = units q).
+  { intros v S L. destruct (with_labels_same q v z L Wq S) as (A & B & C & _).
+    pose proof (with_labels_units _ _ _ L) as U. unfold units_agree in U.
+    rewrite U, A, B, C, (wf_units q Wq). auto. }
+  destruct H as [H|H]; unfold mul in H; rewrite ?Rr, ?Rq in H.
+  - destruct (mon r) eqn:Mr; simpl negb in H; cbv iota in H.
+    + inv_guard H. destruct (mon q) eqn:Mq.
+      * inv_guard H. simpl in H. apply vals_zip_shape in B1. fold (mon r) (mon q) in B1. rewrite Mr in B1.
+        eapply G; [|exact H]. now rewrite B1, Mq.
+      * simpl in H; discriminate H.
+    + destruct (mon q) eqn:Mq.
+      * inv_guard H. apply vals_zip_shape in B. fold (mon r) (mon q) in B. rewrite Mr, Mq in B.
+        eapply G; [|exact H]. now rewrite B, Mq.
+      * inv_guard H. simpl in H. apply vals_zip_shape in B. fold (mon r) (mon q) in B. rewrite Mr, Mq in B.
+        eapply G; [|exact H]. now rewrite B, Mq.
+  - destruct (mon q) eqn:Mq; simpl negb in H; cbv iota in H.
+    + inv_guard H. destruct (mon r) eqn:Mr.
+      * inv_guard H. simpl in H. apply vals_zip_shape in B1. fold (mon r) (mon q) in B1. rewrite Mq in B1.
+        eapply G; [|exact H]. now rewrite B1, Mq.
+      * inv_guard H. apply vals_zip_shape in B0. fold (mon r) (mon q) in B0. rewrite Mq in B0.
+        eapply G; [|exact H]. now rewrite B0, Mq.
+    + destruct (mon r) eqn:Mr.
+      * simpl in H; discriminate H.
+      * inv_guard H. simpl in H. apply vals_zip_shape in B. fold (mon r) (mon q) in B. rewrite Mr, Mq in B.
+        eapply G; [|exact H]. now rewrite B, Mq.
+Qed.
+
+(* ------------------------------------------------------------------ predicates: single value = one-month series *)
+Lemma contains_self_app l p : contains p (l ++ p) = true.
+Proof.
+  apply contains_skip. apply contains_prefix. rewrite <- (app_nil_r_s p) at 2. apply prefix_app.
+Qed.
+
+Section Predicates.
+  Variables (k f p k' f' p' : Q) (lk lf lp : string).
+  Definition one_scalar (a b d : Q) : food := raw (Scalar a b d) lk lf lp.
+  Definition one_month (a b d : Q) : food := raw (Monthly [a] [b] [d]) (lk ++ EACH) (lf ++ EACH) (lp ++ EACH).
+
+  Lemma validate_one_month a b d : validate (one_month a b d) = Ok tt.
+  Proof.
+    unfold validate, one_month, raw, guard. simpl fv. cbn [ku fu pu]. unfold EACH.
+    now rewrite !contains_self_app.
+  Qed.
+
+  Lemma pred_scalar_series incf incp pr :
+    eval_pred incf incp pr (one_scalar k f p) (one_scalar k' f' p')
+    = eval_pred incf incp pr (one_month k f p) (one_month k' f' p').
+  Proof.
+    assert (U1 : same_units (one_scalar k f p) (one_scalar k' f' p') = true) by apply strs_eq_refl.
+    assert (U2 : same_units (one_month k f p) (one_month k' f' p') = true) by apply strs_eq_refl.
+    destruct pr; unfold eval_pred; rewrite ?U1, ?U2; unfold guard, bind;
+    change (mon (one_scalar k f p)) with false; change (mon (one_month k f p)) with true;
+    change (mon (one_scalar k' f' p')) with false; change (mon (one_month k' f' p')) with true;
+    cbv iota; rewrite ?validate_one_month; rewrite ?U1, ?U2; reflexivity.
+  Qed.
+End Predicates.
+
+(* ------------------------------------------------------------------ what the code violates (witnesses) *)
+Definition wit_series : food :=
+  raw (Monthly [1; 2] [3; 4] [5; 6]) "billion kcals each month" "thousand tons each month" "thousand tons each month".
+
+Lemma wit_series_wf : WF wit_series.
+Proof.
+  constructor; simpl; try reflexivity; try (repeat split; discriminate);
+  [exists "billion kcals", []|exists "thousand tons", []|exists "thousand tons", []]; repeat split; auto.
+Qed.
+
+(* x[i] hands the " each month" labels to a single value *)
+Lemma getitem_int_not_wf : exists z, getitem_int wit_series 0 = Ok z /\ mon z = false /\ ~ WF z.
+Proof.
+  eexists. split; [vm_compute; reflexivity|]. split; [reflexivity|].
+  intros [_ _ A _ _]. simpl in A. apply lab_sc_has0 in A. vm_compute in A. discriminate.
+Qed.
+
+Lemma lab_mon_roundtrip l : lab_mon l -> split_first EACH l ++ EACH = l.
+Proof.
+  intros (b & pre & Hc & Hn & ->). unfold EACH. rewrite A4 by exact Hc. rewrite before_each_end by exact Hn.
+  apply A6.
+Qed.
+
+(* int placeholders: " each month" is appended to labels that already carry it *)
+Lemma ctor_int_placeholder_not_wf : exists z,
+  ctor (NList [1; 2]) (NInt 0) (NInt 0) "billion kcals each month" "thousand tons each month" "thousand tons each month"
+    = Ok z /\ fu z = "thousand tons each month each month" /\ ~ WF z.
+Proof.
+  eexists. split; [vm_compute; reflexivity|]. split; [reflexivity|].
+  intros [_ _ _ B _]. simpl in B. apply lab_mon_roundtrip in B. vm_compute in B. discriminate.
+Qed.
+
+(* with float / array nutrients the constructor is fine *)
+Lemma ctor_wf k f p lk lf lp z : ctor k f p lk lf lp = Ok z ->
+  match k with
+  | NList _ => lab_any lk /\ (match f with NInt _ => lab_sc lf | _ => lab_any lf end)
+               /\ (match p with NInt _ => lab_sc lp | _ => lab_any lp end)
+  | _ => lab_sc lk /\ lab_sc lf /\ lab_sc lp
+  end -> WF z.
+Proof.
+  intros H L. destruct k as [zk|qk|kl].
+  - simpl in H. destruct (num_scalar f), (num_scalar p); try discriminate. inversion H; subst z.
+    destruct L as (A & B & C). constructor; simpl; auto.
+  - simpl in H. destruct (num_scalar f), (num_scalar p); try discriminate. inversion H; subst z.
+    destruct L as (A & B & C). constructor; simpl; auto.
+  - destruct L as (A & B & C). unfold ctor in H.
+    assert (Sf : forall n, lab_mon (snd (ctor_side n f lf))).
+    { intros n. destruct f; simpl; [now apply lab_sc_app_each|now apply ctor_label_any|now apply ctor_label_any]. }
+    assert (Sp : forall n, lab_mon (snd (ctor_side n p lp))).
+    { intros n. destruct p; simpl; [now apply lab_sc_app_each|now apply ctor_label_any|now apply ctor_label_any]. }
+    specialize (Sf (List.length kl)). specialize (Sp (List.length kl)).
+    destruct (ctor_side (List.length kl) f lf) as [fa lf']. destruct (ctor_side (List.length kl) p lp) as [pa lp'].
+    simpl in Sf, Sp. unfold guard in H.
+    destruct (contains EACH (ctor_label true lk) && contains EACH lf' && contains EACH lp'); [|discriminate].
+    destruct fa as [fl|]; [|discriminate].
+    destruct (Nat.eqb (List.length kl) (List.length fl)) eqn:E1; simpl in H; [|discriminate].
+    destruct pa as [pl|]; [|discriminate].
+    destruct (Nat.eqb (List.length fl) (List.length pl)) eqn:E2; [|discriminate].
+    destruct (Nat.eqb (List.length kl) 0) eqn:E3; simpl in H; [discriminate|].
+    inversion H; subst z. apply Nat.eqb_eq in E1. apply Nat.eqb_eq in E2. apply Nat.eqb_neq in E3.
+    constructor; simpl; auto. now apply ctor_label_any.
+Qed.
